@@ -197,10 +197,16 @@ class DataModelFieldBase(_BaseModel):
         return True
 
 
+def escape_docstring(text: str) -> str:
+    """Escape text that is written between triple double quotes, so that it reads back unchanged."""
+    return text.replace("\\", "\\\\").replace('"""', '""\\"').replace("\0", "\\x00")
+
+
 @lru_cache
 def get_template(template_file_path: Path) -> Template:
     loader = FileSystemLoader(str(TEMPLATE_DIR / template_file_path.parent))
     environment: Environment = Environment(loader=loader)  # noqa: S701
+    environment.filters["escape_docstring"] = escape_docstring
     return environment.get_template(template_file_path.name)
 
 
